@@ -91,7 +91,7 @@ CHECKS = {
     "C17": dict(
         cat="exploration", ref="5/C17",
         technique="bounded exhaustive enumeration of text pairs x tokenizers x algorithms x str/bytes on the real remapper and helpers; pointer-identity and reconstruction oracle",
-        text="Remapped slices must be pointer-identical substrings covering exactly the op's tokens; reconstruction of both texts; helpers never panic nor return empty slices; the answers are independent of the order of remapping, of the constructor used, and of how iter_slices is consumed.",
+        text="Remapped slices must be pointer-identical substrings covering exactly the op's tokens; reconstruction of both texts; helpers never panic nor return empty slices; the answers are independent of the order of remapping, of the constructor used, and of how iter_slices is consumed. Small pairs are also diffed through a caller-side tokenization that contains zero-width tokens.",
         note="Trusted: harness oracle."),
     "C18": dict(
         cat="exploration", ref="5/C18",
